@@ -1,1 +1,161 @@
-int main(void){return 0;}
+/* C01 - the real embedded Linux daemon receive path, driven in-process:
+ * os/linux/daemon/linux-embedded-main.c is #included into this translation unit (its main() renamed),
+ * so fillInterfaceDetails' malloc(MTU) and lltdLoop's recvfrom(..., MTU) are the ones in the tree; it is
+ * linked with the real os/linux/lltd_port.c and the core.  socket/bind/ioctl/if_nametoindex/recvfrom/
+ * close are answered by this harness (ioctl answers the MTU under test, recvfrom copies
+ * min(len argument, frame length) bytes of the next scripted frame), sendto/nanosleep/clock_gettime/
+ * gethostname/getifaddrs are interposed for the port layer.  ASan/UBSan is the oracle. */
+#define _GNU_SOURCE
+#include <errno.h>
+#include <ifaddrs.h>
+#include <linux/if_ether.h>
+#include <net/if.h>
+#include <netpacket/packet.h>
+#include <pthread.h>
+#include <signal.h>
+#include <stdarg.h>
+#include <stdbool.h>
+#include <stdio.h>
+#include <stdlib.h>
+#include <string.h>
+#include <sys/ioctl.h>
+#include <sys/socket.h>
+#include <time.h>
+#include <unistd.h>
+
+#include "../mc/forkrun.h"
+
+uint8_t vf_station[64][6] = {
+    [ST_OWN]  = {0x02, 0x11, 0x22, 0x33, 0x44, 0x55}, [ST_M1] = {0x00, 0x15, 0x5d, 0xaa, 0xbb, 0x01}, [ST_M2] = {0x00, 0x15, 0x5d, 0xaa, 0xbb, 0x02},
+    [ST_BR]   = {0x00, 0x0c, 0x29, 0x01, 0x02, 0x03}, [ST_S0] = {0x00, 0x50, 0x56, 0x00, 0x00, 0x10}, [ST_PEER] = {0x02, 0x11, 0x22, 0x33, 0x44, 0x54},
+    [ST_BC]   = {0xff, 0xff, 0xff, 0xff, 0xff, 0xff},
+};
+#include "shapes.h"
+
+/* ------------------------------------------------------------ scripted environment */
+static size_t script_mtu;
+static const int *script; static int script_n, script_pos; static int script_first;   /* indices into FULL, optional first shape */
+static uint8_t image[VF_MAXMTU + 64];
+static uint64_t sends, recvs;
+static volatile sig_atomic_t *exit_flag_ptr;
+
+static int vf_socket(int d, int t, int p) { (void)d; (void)t; (void)p; return 100; }
+static int vf_bind(int fd, const struct sockaddr *a, socklen_t l) { (void)fd; (void)a; (void)l; return 0; }
+static unsigned vf_if_nametoindex(const char *n) { (void)n; return 7; }
+static int vf_close(int fd) { (void)fd; return 0; }
+static int vf_ioctl(int fd, unsigned long req, void *arg) {
+    struct ifreq *ifr = arg; (void)fd;
+    if (req == SIOCGIFMTU) { ifr->ifr_mtu = (int)script_mtu; return 0; }
+    if (req == SIOCGIFHWADDR) { memcpy(ifr->ifr_hwaddr.sa_data, vf_station[ST_OWN], 6); return 0; }
+    if (req == SIOCGIFFLAGS) { ifr->ifr_flags = IFF_UP | IFF_RUNNING; return 0; }
+    return -1;
+}
+static ssize_t vf_recvfrom(int fd, void *buf, size_t len, int flags, struct sockaddr *a, socklen_t *al) {
+    (void)fd; (void)flags; (void)a; (void)al;
+    const shape *s;
+    if (script_first >= 0) { s = &FIRST[script_first]; script_first = -1; }
+    else {
+        if (script_pos >= script_n) { *exit_flag_ptr = 1; return -1; }
+        s = &FULL[script[script_pos++]];
+    }
+    fr_note((uint64_t)script_pos);
+    size_t L = render(s, image);
+    if (L > len) L = len;                /* the kernel writes at most the length the daemon passed */
+    memcpy(buf, image, L);
+    recvs++;
+    return (ssize_t)L;
+}
+static FILE *vf_fopen(const char *path, const char *mode) { if (!strcmp(path, "/dev/console")) return NULL; return fopen(path, mode); }
+
+/* interposed for os/linux/lltd_port.c (separate translation unit) */
+ssize_t sendto(int fd, const void *buf, size_t len, int flags, const struct sockaddr *a, socklen_t al) {
+    (void)fd; (void)flags; (void)a; (void)al;
+    static volatile uint8_t sink; const uint8_t *b = buf;
+    for (size_t i = 0; i < len; i++) sink ^= b[i];            /* touch every byte: an over-long length is an ASan report */
+    sends++;
+    return (ssize_t)len;
+}
+int nanosleep(const struct timespec *r, struct timespec *m) { (void)r; (void)m; return 0; }
+static uint64_t fake_ns = 5000000000ull;
+int clock_gettime(clockid_t c, struct timespec *ts) { (void)c; fake_ns += 1000000; ts->tv_sec = (time_t)(fake_ns / 1000000000ull); ts->tv_nsec = (long)(fake_ns % 1000000000ull); return 0; }
+int gethostname(char *name, size_t len) { snprintf(name, len, "verif-embedded-host-with-a-long-name-0123456789"); return 0; }
+int getifaddrs(struct ifaddrs **ifap) { *ifap = NULL; return 0; }
+void freeifaddrs(struct ifaddrs *ifa) { (void)ifa; }
+
+#define socket vf_socket
+#define bind vf_bind
+#define if_nametoindex vf_if_nametoindex
+#define ioctl vf_ioctl
+#define recvfrom vf_recvfrom
+#define close vf_close
+#define fopen vf_fopen
+#define main lltd_embedded_main
+#include VF_DAEMON_C
+#undef main
+#undef socket
+#undef bind
+#undef if_nametoindex
+#undef ioctl
+#undef recvfrom
+#undef close
+#undef fopen
+
+extern uint8_t __start_core_bss[] __attribute__((weak)), __stop_core_bss[] __attribute__((weak));
+__attribute__((no_sanitize("address"))) static void reset_core(void) { for (uint8_t *p = __start_core_bss; p < __stop_core_bss; p++) *p = 0; }
+
+/* ------------------------------------------------------------ executions */
+#define CHUNK 2000
+static int NCHUNK; static int *order;
+
+static void exec_session(uint64_t idx) {
+    static int quiet;
+    if (!quiet) { stderr = fopen("/dev/null", "w"); quiet = 1; }        /* daemon / port logging; fd 2 stays with the sanitizers */
+    int f1 = (int)(idx / (uint64_t)NCHUNK), chunk = (int)(idx % (uint64_t)NCHUNK);
+    reset_core();
+    exitFlag = 0; exit_flag_ptr = &exitFlag;
+    script = order + (size_t)chunk * CHUNK; script_n = (chunk + 1) * CHUNK > NFULL ? NFULL - chunk * CHUNK : CHUNK; script_pos = 0;
+    script_first = f1 == 0 ? -1 : f1 - 1;
+    embedded_interface_ctx_t ctx; memset(&ctx, 0, sizeof ctx);
+    if (!fillInterfaceDetails(&ctx.iface, "vf0")) vf_harness_error("fillInterfaceDetails failed");
+    /* the daemon never clears the buffer: start from the configured fill pattern */
+    memset(ctx.iface.recvBuffer, (int)A.fill, ctx.iface.MTU);
+    ctx.mapping = init_automata_mapping(); ctx.session = init_automata_session();
+    lltdLoop(&ctx);
+    free(ctx.iface.recvBuffer); free((void *)ctx.iface.deviceName);
+    freeAutomata(ctx.mapping); freeAutomata(ctx.session);
+    uint64_t o[2] = { sends, (uint64_t)chunk }; if ((idx & 7) == 0) vf_outcome(vf_hash64(o, sizeof o, 4));
+    sends = 0;
+}
+static void describe(uint64_t idx, FILE *f) {
+    int f1 = (int)(idx / (uint64_t)NCHUNK), chunk = (int)(idx % (uint64_t)NCHUNK);
+    fprintf(f, "\"events\":[%llu],\"first_frame\":%d,\"chunk\":%d,\"frame_in_chunk\":%llu", (unsigned long long)idx, f1 - 1, chunk, (unsigned long long)fr_last_note);
+    uint64_t k = fr_last_note ? fr_last_note - 1 : 0;
+    if ((size_t)chunk * CHUNK + k < (size_t)NFULL) { fprintf(f, ",\"frame\":"); shape_json(f, &FULL[order[(size_t)chunk * CHUNK + k]]); }
+}
+
+int main(int argc, char **argv) {
+    vf_parse_args(argc, argv, "C01");
+    MTU = script_mtu = A.mtu; OWN = vf_station[ST_OWN];
+    build_full(); build_first(vf_thorough() ? 40 : 12);
+    NCHUNK = (NFULL + CHUNK - 1) / CHUNK;
+    /* frame order: a fixed stride permutation so that neighbours in a chunk differ in opcode and length */
+    order = malloc(sizeof(int) * (size_t)NFULL);
+    { uint64_t stride = 7919; while (NFULL % (int)stride == 0) stride += 2; for (int i = 0; i < NFULL; i++) order[i] = (int)(((uint64_t)i * stride) % (uint64_t)NFULL); }
+    fr_cfg fc = { .exec = exec_session, .describe = describe, .sig_prefix = "memory-safety:embedded-daemon" };
+    fr_stats st;
+    double t0 = vf_now_s();
+    if (A.replay) {
+        FILE *f = fopen(A.replay, "r"); static char buf[1 << 16]; size_t n = f ? fread(buf, 1, sizeof buf - 1, f) : 0; buf[n] = 0; if (f) fclose(f);
+        char *q = strstr(buf, "\"events\":["); if (!q) return 2;
+        uint64_t idx = strtoull(q + 10, NULL, 10); fc.max_same_sig = 1;
+        for (int round = 0; round < 2; round++) { fr_run(&fc, idx, idx + 1, &st); printf("replay round %d of daemon session %llu: %s\n", round, (unsigned long long)idx, st.deaths ? "sanitizer report / crash reproduced" : "ran clean"); }
+        return vf_nviolations() ? 1 : 0;
+    }
+    uint64_t total = (uint64_t)(NFIRST + 1) * (uint64_t)NCHUNK;
+    fr_run(&fc, total * (uint64_t)A.part / (uint64_t)A.nparts, total * (uint64_t)(A.part + 1) / (uint64_t)A.nparts, &st);
+    R.evaluations = st.executed * CHUNK; R.exhaustive = st.cap == NULL; R.cap_hit = st.cap;
+    vf_sample("embedded daemon: (%d first frames + none) x %d chunks of %d frames through the real fillInterfaceDetails / lltdLoop (malloc(MTU), recvfrom(..., MTU)), MTU %zu, buffer pre-filled 0x%02x", NFIRST, NCHUNK, CHUNK, MTU, A.fill);
+    R.wall_s = vf_now_s() - t0;
+    vf_write_results();
+    return 0;
+}
